@@ -53,7 +53,11 @@ INVALID = ["foo=1", "targettemperature=20", "indoor_temperature=20", "outdoor_te
            "get_capabilities=1", "FanSpeed=1", "_eco=True", "__class__=1", "operational_mode=warm", "operational_mode=9", "operational_mode=0",
            "swing_mode=1", "swing_mode=diagonal", "aux_mode=3", "rate_select=2", "vertical_swing_angle=pos_9", "target_temperature=hot",
            "target_humidity=wet", "operational_mode=2.5", "swing_mode=3.9", "aux_mode=1.2", "rate_select=50.5", "horizontal_swing_angle=25.7", "eco=yes", "eco=on", "turbo=maybe", "beep=off", "fan_speed", "eco", "eco=", "target_temperature=", "id=5",
-           "ip=1.2.3.4", "token=00", "type=1", "name=x"]
+           "ip=1.2.3.4", "token=00", "type=1", "name=x",
+           # spellings float()/int() accept but Python literal syntax does not
+           "target_temperature=nan", "target_temperature=NaN", "target_temperature=inf", "target_temperature=-inf", "target_temperature=Infinity",
+           "target_temperature=+inf", "target_humidity=nan", "target_humidity=inf",
+           "fan_speed=nan", "target_temperature=21j", "target_temperature=None", "target_temperature=[21]", "target_humidity=None", "target_humidity={}"]
 
 
 def style(name: str, how: int) -> str:
